@@ -185,7 +185,7 @@ func drawCoin(rt *rapid.T, label string) sdk.Coin {
 		}
 		return sdk.NewCoin(denom, amt)
 	}
-	amt := rapid.OneOf(rapid.Int64Range(0, 20), rapid.Int64Range(1, 5_000_000)).Draw(rt, label+"-amt")
+	amt := rapid.OneOf(rapid.Int64Range(0, 20), rapid.Int64Range(1, 5_000_000), rapid.Int64Range(5_000_000, 2_000_000_000)).Draw(rt, label+"-amt")
 	return sdk.NewInt64Coin(denom, amt)
 }
 
